@@ -21,6 +21,9 @@
   [a, a + 8 + sz) and its payload starts at a + 8.
 -/
 import IgrisModel.C10.Lemmas
+import IgrisModel.C10.LemmasZones
+import IgrisModel.C10.LemmasIter
+import IgrisModel.C10.LemmasPtr
 namespace Igris.C10
 
 /-! ## Fixed-block pools (pool_head / igris::pool / static_object_pool)
@@ -417,5 +420,479 @@ example : ∃ s, irun ⟨IPool.init 48 16, []⟩ [.get, .get, .get, .get, .put n
     s.pool.room = 1 := ⟨_, rfl, by decide⟩
 example : ∃ s, srun (SOP.init 12 4 3) [.create, .create, .destroy 32, .create] = some s ∧ s.objs.length = 2 :=
   ⟨_, rfl, by decide⟩
+
+/-! ## One pool fed from several zones (`pool_engage` onto an existing list)
+
+`pool_init` and `pool_engage` are separate calls: a pool may be given further
+zones at any point of its life (`static_object_pool::freelist()` exists for
+that).  A history is any list of `engage base size elemsz` / `alloc` / `free c`;
+it is rejected (`none`) only when the zone is refused (`engageRefused`: `elemsz <
+sizeof(struct slist_head) = 8` or `size % elemsz ≠ 0`), for a zone overlapping
+an earlier one, or for `free` of a cell that is not allocated.  Zones may have different sizes AND different element sizes.
+`capacity zones` = the sum of `size / elemsz` over the zones engaged so far;
+`InZone z c` = `c = z.base + i * z.elemsz` for some `i < size / elemsz`. -/
+
+/-- `pool_engage` onto ANY free list: the cells of the new zone come in front,
+the list that was there stays behind them — nothing is dropped — and `avail`
+grows by exactly the number of cells of the zone -/
+theorem mpool_engage_keeps_old_list (p : Pool) (z : Zone) (hw : z.WF) :
+    (p.engageAt z.base z.size z.elemsz).free = (zcells z).reverse ++ p.free ∧
+    (p.engageAt z.base z.size z.elemsz).avail = p.avail + z.ncells := by
+  have := engageAt_eq p z hw
+  exact ⟨this, by simp only [Pool.avail, this, List.length_append, List.length_reverse, zcells_length]; omega⟩
+
+/-- every multi-zone history: the cells handed out are pairwise distinct, each is a
+cell of one of the engaged zones (inside that zone, on a cell boundary of it), and
+any two of them are disjoint byte ranges (each with the element size of its zone) -/
+theorem mpool_blocks_distinct_aligned_in_zone (ops : List MOp) (s : MState)
+    (hr : mrun MState.init ops = some s) :
+    s.live.Nodup ∧
+    (∀ c ∈ s.live, ∃ z ∈ s.zones, InZone z c ∧ z.base ≤ c ∧ c + z.elemsz ≤ z.base + z.size ∧
+      (c - z.base) % z.elemsz = 0) ∧
+    (∀ c ∈ s.live, ∀ d ∈ s.live, c ≠ d → ∀ z ∈ s.zones, ∀ w ∈ s.zones, InZone z c → InZone w d →
+      c + z.elemsz ≤ d ∨ d + w.elemsz ≤ c) := by
+  have hi := mrun_inv MInv.init hr
+  have hf := hi.facts
+  refine ⟨hf.1, fun c hc => ?_, fun c _ d _ hne z hz w hw hzc hwd => ?_⟩
+  · obtain ⟨z, hz, hin⟩ := hf.2.2.2.1 c (Or.inl hc)
+    exact ⟨z, hz, hin, hin.range (hi.wf z hz)⟩
+  · rcases zones_eq_or_disjoint hi.disj hz hw with rfl | hd
+    · exact cells_of_one_zone hzc hwd hne
+    · exact cells_of_disjoint_zones (hi.wf z hz) (hi.wf w hw) hd hzc hwd
+
+/-- a successful `pool_alloc` returns a cell that was not handed out before -/
+theorem mpool_alloc_fresh (ops : List MOp) (s s' : MState) (c : Nat)
+    (hr : mrun MState.init ops = some s) (ha : mstep s .alloc = some (s', some c)) :
+    c ∉ s.live ∧ s'.live = c :: s.live := by
+  have hi := mrun_inv MInv.init hr
+  have hf' := (mstep_inv hi ha).facts
+  simp only [mstep, Pool.alloc] at ha
+  cases hfr : s.pool.free with
+  | nil => rw [hfr] at ha; simp at ha
+  | cons c' rest =>
+    rw [hfr] at ha; simp only [Option.some.injEq, Prod.mk.injEq] at ha
+    obtain ⟨rfl, hc⟩ := ha
+    cases hc
+    exact ⟨by have := hf'.1; simp only [List.nodup_cons] at this; exact this.1, rfl⟩
+
+/-- `pool_alloc` answers null exactly when as many cells are handed out as ALL
+zones engaged so far contain -/
+theorem mpool_null_iff_exhausted (ops : List MOp) (s : MState) (hr : mrun MState.init ops = some s) :
+    s.pool.alloc.1 = none ↔ s.live.length = capacity s.zones := by
+  have hf := (mrun_inv MInv.init hr).facts.2.2.2.2
+  simp only [Pool.alloc]
+  cases hfr : s.pool.free with
+  | nil => simp [hfr] at hf ⊢; exact hf
+  | cons c rest => simp [hfr] at hf ⊢; omega
+
+/-- … so after any history, `k` further allocations give `min (live + k) capacity`
+cells: exactly the capacity (the sum over the zones) is handed out before null -/
+theorem mpool_exactly_capacity (ops : List MOp) (s s' : MState) (k : Nat)
+    (hr : mrun MState.init ops = some s) (hk : mrun s (List.replicate k .alloc) = some s') :
+    s'.live.length = min (s.live.length + k) (capacity s.zones) :=
+  (mrun_allocs k s s' (mrun_inv MInv.init hr) hk).1
+
+/-- `pool_avail` = capacity − live cells after every multi-zone history -/
+theorem mpool_avail_eq (ops : List MOp) (s : MState) (hr : mrun MState.init ops = some s) :
+    s.pool.avail = capacity s.zones - s.live.length ∧ s.live.length ≤ capacity s.zones := by
+  have hf := (mrun_inv MInv.init hr).facts.2.2.2.2
+  simp only [Pool.avail]; omega
+
+/-- a freed cell is allocatable again, also when further zones are engaged in
+between: it stays on the free list until it is handed out -/
+theorem mpool_freed_cell_allocatable (s s1 : MState) (c : Nat) (r : Option Nat)
+    (hf : mstep s (.free c) = some (s1, r)) :
+    (∃ s2, mstep s1 .alloc = some (s2, some c)) ∧
+    ∀ b sz e s2 r2, mstep s1 (.engage b sz e) = some (s2, r2) → c ∈ s2.pool.free := by
+  simp only [mstep] at hf
+  split at hf
+  · cases hf
+    refine ⟨⟨⟨⟨s.pool.free⟩, c :: s.live.erase c, s.zones⟩, by simp [mstep, Pool.alloc, Pool.release]⟩, ?_⟩
+    intro b sz e s2 r2 he
+    simp only [mstep] at he
+    split at he
+    · cases he
+    · rename_i hc
+      split at he
+      · simp only [Option.some.injEq, Prod.mk.injEq] at he
+        obtain ⟨rfl, _⟩ := he
+        have hwz : (⟨b, sz, e⟩ : Zone).WF := not_refused_wf hc
+        have := engageAt_eq (s.pool.release c).1 ⟨b, sz, e⟩ hwz
+        simp only at this ⊢
+        rw [this]; simp [Pool.release]
+      · cases he
+  · cases hf
+
+/-- the stores of `pool_engage` (one link per cell) stay inside the zone being
+engaged: cells handed out from other zones keep their contents -/
+theorem mpool_engage_stores_inside_zone (b n e fuel : Nat) (he : 8 ≤ e) :
+    ∀ ev ∈ engageEvs e (b + n * e) fuel b, ev.Inside b (b + n * e) := by
+  have := engageEvs_inside e b n he fuel 0 (Nat.zero_le _)
+  simpa using this
+
+/-- no store of a pool request (the links written by `pool_engage` into a new
+zone, the link written by `pool_free`) touches a cell that is handed out before
+and after the request (element sizes ≥ 8 = size of the link: the precondition of `pool_engage`) … -/
+theorem mpool_no_clobber (ops : List MOp) (s s' : MState) (op : MOp) (r : Option Nat)
+    (hr : mrun MState.init ops = some s) (hs : mstep s op = some (s', r)) :
+    ∀ ev ∈ mstepEvs s op, ∀ c ∈ s.live, c ∈ s'.live → ∀ z ∈ s'.zones, InZone z c →
+      ev.Avoids c (c + z.elemsz) :=
+  mstep_evs_avoid (mrun_inv MInv.init hr) hs
+
+/-- … so over a whole multi-zone history the contents of a handed-out cell stay
+untouched until it is freed: as long as no request frees it, it stays handed
+out and every byte keeps its value in every memory that can result -/
+theorem mpool_contents_untouched_until_freed (ops0 ops : List MOp) (s s' : MState) (evs : List Ev)
+    (hr : mrun MState.init ops0 = some s) (hs : mrunE s ops = some (s', evs))
+    (c : Nat) (hc : c ∈ s.live)
+    (hne : ∀ op ∈ ops, op ≠ .free c) (z : Zone) (hz : z ∈ s.zones) (hzc : InZone z c)
+    (m m' : Mem) (hx : Exec m evs m') :
+    c ∈ s'.live ∧ ∀ x, c ≤ x → x < c + z.elemsz → m' x = m x :=
+  mrunE_frame (mrun_inv MInv.init hr) hs hc hne hz hzc hx
+
+/-- the `next`-pointer routines implement every multi-zone history: the same
+pointers are returned and the links always represent the model's list (`head` =
+address of `pool->free_blocks`, outside every zone) -/
+theorem mpool_ptr_refines (s s' : MState) (op : MOp) (r : Option Nat) (m : Links) (head : Nat)
+    (ops : List MOp) (hr0 : mrun MState.init ops = some s) (hr : Rep m head s.pool.free)
+    (hs : mstep s op = some (s', r))
+    (hh : ∀ z ∈ s'.zones, head < z.base ∨ z.base + z.size ≤ head) :
+    (mstepP m head op).2 = r ∧ Rep (mstepP m head op).1 head s'.pool.free :=
+  mstepP_rep (mrun_inv MInv.init hr0) hr hs hh
+
+theorem mpool_ptr_run_refines (ops : List MOp) (s : MState) (m : Links) (head : Nat)
+    (hs : mrun MState.init ops = some s)
+    (hh : ∀ z ∈ s.zones, head < z.base ∨ z.base + z.size ≤ head) :
+    Rep (mrunP head (slistInit m head) ops) head s.pool.free :=
+  mrunP_rep MInv.init (by simpa [MState.init, Pool.init] using rep_init m head) hs hh
+
+/-! ### what the pools need from the element size
+
+The list-level theorems above hold for the list model with any `elemsz > 0`.  The
+CODE keeps the list in the cells: `pool_engage` / `pool_free` store an 8-byte link
+at the start of every free cell.  That is sound exactly when a cell can hold the
+link; after `fix: igris::pool::init() asserts that a cell can hold the free-list link`
+the class refuses smaller element sizes (`engageRefused`), for the C function
+`pool_engage` it is the documented precondition, and the multi-zone histories
+(`mstep`) reject them. -/
+
+/-- with `elemsz ≥ 8` every link store of `pool_engage` is the first 8 bytes of a
+cell of the zone and stays inside that cell: no two link fields overlap, none
+leaves the zone — the `next`-field memory `Links` (one slot per cell) is sound -/
+theorem pool_links_inside_cells (e b n fuel : Nat) (he : 8 ≤ e) :
+    ∀ ev ∈ engageEvs e (b + n * e) fuel b,
+      ∃ k, k < n ∧ ev = .w (b + k * e) 8 ∧ ev.Inside (b + k * e) (b + k * e + e) ∧ ev.Inside b (b + n * e) := by
+  intro ev hev
+  have h := engageEvs_cells e b n (by omega) fuel 0 (Nat.zero_le _)
+  simp only [Nat.zero_mul, Nat.add_zero] at h
+  obtain ⟨k, _, hk, rfl⟩ := h ev hev
+  have h1 : (k + 1) * e ≤ n * e := Nat.mul_le_mul_right e hk
+  rw [Nat.add_mul, Nat.one_mul] at h1
+  refine ⟨k, hk, rfl, ?_, ?_⟩ <;> simp only [Ev.Inside, Ev.lo, Ev.hi] <;> omega
+
+/-- FULL STATEMENT ("for all pool element sizes") is violated for element sizes
+below the size of the link.  Witness: `elemsz = 4`, a zone of 16 bytes — the link
+stores are 8 bytes at 0, 4, 8, 12: neighbouring links overlap and the last one
+leaves the zone (real code: ASan heap-buffer-overflow, `pool_avail` segfaults).
+The repaired `igris::pool::init` refuses the request (assert), the histories reject it. -/
+theorem pool_elemsz_below_link_witness :
+    engageEvs 4 16 17 0 = [.w 0 8, .w 4 8, .w 8 8, .w 12 8] ∧ ¬ (Ev.w 12 8).Inside 0 16 ∧
+    engageRefused 16 4 = true ∧ mstep MState.init (.engage 0 16 4) = none :=
+  ⟨by decide, by simp [Ev.Inside, Ev.lo, Ev.hi], by decide, by decide⟩
+
+/-- "aligned for its use": when the zone is 8-aligned and the element size a
+multiple of 8, every cell is 8-aligned (the link store and any `T` with
+`alignof(T) ≤ 8` are aligned) -/
+theorem pool_cells_pointer_aligned (z : Zone) (c : Nat) (hb : z.base % 8 = 0) (he : z.elemsz % 8 = 0)
+    (hc : InZone z c) : c % 8 = 0 := by
+  obtain ⟨i, _, rfl⟩ := hc
+  obtain ⟨q, hq⟩ := Nat.dvd_of_mod_eq_zero he
+  rw [hq, Nat.mul_left_comm]
+  generalize i * q = t
+  omega
+
+/-- FULL STATEMENT (aligned for EVERY element size) fails: `elemsz = 12` passes the
+asserts, cell 12 of an 8-aligned zone is not pointer-aligned (the link store is
+a misaligned access: tolerated on x86-64, a fault on Cortex-M0).  The
+correspondence stream exercises such sizes with UBSan's alignment check off. -/
+theorem pool_elemsz_unaligned_witness :
+    InZone ⟨0, 24, 12⟩ 12 ∧ 12 % 8 ≠ 0 ∧ engageRefused 24 12 = false :=
+  ⟨⟨1, by decide, by decide⟩, by decide, by decide⟩
+
+/-! ### static_object_pool: object lifetimes, with zones added through `freelist()` -/
+
+/-- every history of create / destroy / engage-through-`freelist()`: per cell the
+constructor ran exactly once more than the destructor when an object lives there
+and exactly as often otherwise (constructed once, destroyed once, never
+constructed over a live object); objects are distinct cells of the storage or of
+an engaged zone, large enough for `T`; `avail()` = total cells − live objects -/
+theorem sopx_lifetimes (szT alT cap : Nat) (ops : List SXOp) (p : SOPx)
+    (hr : sxrun (storageSize szT alT) (SOPx.init szT alT cap) ops = some p) :
+    p.sop.fault = false ∧ p.sop.objs.Nodup ∧
+    (∀ c, p.ctor.count c = p.dtor.count c + (if c ∈ p.sop.objs then 1 else 0)) ∧
+    p.sop.avail = capacity p.zones - p.sop.objs.length ∧ p.sop.objs.length ≤ capacity p.zones ∧
+    szT ≤ storageSize szT alT ∧
+    ∀ c ∈ p.sop.objs, ∃ z ∈ p.zones, z.elemsz = storageSize szT alT ∧ z.base ≤ c ∧
+      c + storageSize szT alT ≤ z.base + z.size ∧ (c - z.base) % storageSize szT alT = 0 := by
+  have hi := sxrun_inv (SXInv.init szT alT cap) hr
+  have hf := hi.m.facts
+  simp only at hf
+  refine ⟨hi.fault, hf.1, hi.ledger, by simp only [SOP.avail, Pool.avail]; omega, by omega, ?_, fun c hc => ?_⟩
+  · have := storageSize_ge szT alT; have := Nat.le_max_left szT 8; omega
+  · obtain ⟨z, hz, hin⟩ := hf.2.2.2.1 c (Or.inl hc)
+    have := hin.range (hi.m.wf z hz)
+    rw [hi.esz z hz] at this
+    exact ⟨z, hz, hi.esz z hz, this⟩
+
+/-- slot reuse: after `destroy(obj)` the next `create()` constructs in the cell
+`obj` occupied -/
+theorem sopx_slot_reuse (st : Nat) (p p1 : SOPx) (c : Nat) (r : Option Nat)
+    (hd : sxstep st p (.destroy c) = some (p1, r)) :
+    ∃ p2, sxstep st p1 .create = some (p2, some c) ∧ p2.ctor = c :: p1.ctor := by
+  simp only [sxstep] at hd
+  split at hd
+  · simp only [Option.some.injEq, Prod.mk.injEq] at hd
+    obtain ⟨rfl, _⟩ := hd
+    simp [sxstep, SOP.create, SOP.destroy, Pool.alloc, Pool.release]
+  · cases hd
+
+/-! ### igris::pool: the iterator over allocated cells -/
+
+/-- `unlinked_iterator::next()` from `num`: the smallest allocated cell index
+above `num`, or −1 (= `end()`) when there is none; the do/while terminates -/
+theorem ipool_iterator_next (e n : Nat) (he : 0 < e) (ops : List IOp) (s : IState)
+    (hr : irun ⟨IPool.init (n * e) e, []⟩ ops = some s) (num : Int) (hnum : -1 ≤ num) :
+    (s.pool.iterNext num = -1 ∧ ∀ j : Int, num < j → j < n → j.toNat * e ∉ s.live) ∨
+    (∃ j : Int, s.pool.iterNext num = j ∧ num < j ∧ j < n ∧ j.toNat * e ∈ s.live ∧
+      ∀ k : Int, num < k → k < j → k.toNat * e ∉ s.live) :=
+  ipool_iterNext_spec e n he ops s hr num hnum
+
+/-- `for (it = begin(); it != end(); ++it)` visits exactly the allocated cells,
+each once, in ascending order — as many as there are live cells -/
+theorem ipool_iteration_visits_live_cells (e n : Nat) (he : 0 < e) (ops : List IOp) (s : IState)
+    (hr : irun ⟨IPool.init (n * e) e, []⟩ ops = some s) :
+    s.pool.iterAll = ((List.range n).filter (fun i : Nat => decide (i * e ∈ s.live))).map (fun i : Nat => (i : Int)) ∧
+    s.pool.iterAll.length = s.live.length ∧
+    (∀ i ∈ s.pool.iterAll, 0 ≤ i ∧ i < n ∧ i.toNat * e ∈ s.live) ∧
+    (∀ c ∈ s.live, ∃ i ∈ s.pool.iterAll, c = i.toNat * e) :=
+  ⟨ipool_iterAll_eq e n he ops s hr, ipool_iterAll_length e n he ops s hr,
+    fun i hi => ipool_iter_cell_in_zone e n he ops s hr i hi,
+    fun c hc => ipool_iter_visits_all e n he ops s hr c hc⟩
+
+/-- igris::pool: a cell given back with `put` is returned by the next `get` -/
+theorem ipool_put_then_get (s s1 : IState) (c : Nat) (r : Option Nat)
+    (hp : istep s (.put (some c)) = some (s1, r)) : ∃ s2, istep s1 .get = some (s2, some c) :=
+  ipool_put_then_get_returns_it s s1 c r hp
+
+/-- a default-constructed `igris::pool` (no zone) is an empty pool of capacity 0
+for every query, after every history of `get` / `put(NULL)`: `size()`, `room()`,
+`avail()` are 0, `get()` answers null, no cell is allocated, the iteration is empty -/
+theorem ipool_default_constructed (ops : List IOp) (s : IState)
+    (hr : irun ⟨IPool.default, []⟩ ops = some s) (i : Int) :
+    s.pool.cells = 0 ∧ s.pool.room = 0 ∧ s.pool.avail = 0 ∧ s.pool.get.1 = none ∧
+    s.pool.cellIsAllocated i = false ∧ s.pool.iterAll = [] ∧ s.live = [] := by
+  have hk : ∀ ops s, irun ⟨IPool.default, []⟩ ops = some s → s = ⟨IPool.default, []⟩ := by
+    intro ops
+    induction ops with
+    | nil => intro s h; simp only [irun] at h; cases h; rfl
+    | cons op ops ih =>
+      intro s h
+      cases op with
+      | get => exact ih s (by simpa [irun, istep, IPool.get, Pool.alloc, IPool.default, Pool.init] using h)
+      | put c =>
+        cases c with
+        | none => exact ih s (by simpa [irun, istep, IPool.put] using h)
+        | some c => simp [irun, istep] at h
+  rw [hk ops s hr]
+  refine ⟨rfl, rfl, rfl, rfl, ?_, rfl, rfl⟩
+  simp only [IPool.cellIsAllocated, IPool.cells, IPool.default, Nat.zero_div]
+  rw [if_pos (by omega)]
+
+/-- FULL STATEMENT violated by `size()` as it was (`cellsOrig`): on a
+default-constructed pool it divides by `_elemsz = 0` (trap) -/
+theorem ipool_sizeOrig_default_witness :
+    IPool.default.cellsOrig = none ∧ IPool.default.cells = 0 ∧ (IPool.init 48 16).cellsOrig = some 3 := by decide
+
+/-! ## "Inside the arena" is relative to the configured heap end
+
+FULL STATEMENT: every block lies inside the arena.  The allocator learns the end
+of its arena only through `__malloc_heap_end`, and the shipped default is 0 = "no
+limit" (`fix 0084f04` made the limit opt-in to keep the old behaviour).  So the
+clause holds as `_partial` (heap end configured) and fails as `_witness` (default). -/
+
+/-- with a heap end configured, every chunk (free or live, header included) of
+every history ends at or below it -/
+theorem heap_blocks_inside_arena_partial (cfg : Cfg) (ok : CfgOK cfg) (hl : cfg.lim ≠ 0) (ops : List Op) (h : Heap)
+    (hr : run cfg Heap.init ops = some h) : ∀ c ∈ h.flp ++ h.live, c.1 + 8 + c.2 ≤ cfg.lim := by
+  have hok := heap_inv cfg ok ops h hr
+  intro c hc
+  exact Nat.le_trans (hok.inside c hc) (hok.limit hl)
+
+/-- with the default `__malloc_heap_end = 0` there is no arena bound the allocator
+respects: for every bound `B` one request moves the break past it (malloc never fails) -/
+theorem heap_blocks_inside_arena_witness (W B : Nat) :
+    (malloc ⟨W, 0⟩ Heap.init B).ret = some 8 ∧ B < (malloc ⟨W, 0⟩ Heap.init B).h.brk := by
+  have := le_reqLen W B
+  simp only [malloc, Heap.init, scan, availOf]
+  refine ⟨by simp, ?_⟩
+  simp
+  omega
+
+/-! ## Requests close to `SIZE_MAX` (64-bit `size_t`)
+
+`malloc64` / `realloc64` = the routines with the overflow test of
+`fix: malloc()/realloc() fail when rounding the request up to __WORDSIZE wraps around`;
+for every request they either refuse (NULL, nothing changed) or behave as the
+unbounded routines above, so all heap theorems hold for ALL request sizes. -/
+
+/-- for EVERY request size: a block returned by malloc has a usable size ≥ the
+request (and all the other properties of `malloc_returns_valid_block`); a request
+whose rounding does not fit a `size_t` is refused and nothing changes -/
+theorem malloc64_all_sizes (cfg : Cfg) (ok : CfgOK cfg) (h : Heap) (n : Nat) (hr : Reach cfg h) :
+    (∀ p, (malloc64 cfg h n).ret = some p →
+      ∃ s, (malloc64 cfg h n).h.live = (p - 8, s) :: h.live ∧ n ≤ s ∧ p % 8 = 0 ∧
+        p + s ≤ (malloc64 cfg h n).h.brk ∧ ∀ c ∈ h.live, Disj c (p - 8, s)) ∧
+    ((malloc64 cfg h n).ret = none → (malloc64 cfg h n).h = h ∧ (malloc64 cfg h n).evs = []) ∧
+    (n ≤ SIZE_MAX → roundLen cfg.W n > SIZE_MAX → (malloc64 cfg h n).ret = none) ∧
+    Reach cfg (malloc64 cfg h n).h := by
+  unfold malloc64
+  split
+  · rename_i hc
+    exact ⟨fun p hp => (by cases hp), fun _ => ⟨rfl, rfl⟩, fun _ _ => rfl, hr⟩
+  · rename_i hc
+    refine ⟨fun p hp => ?_, fun hn => (malloc_fail_changes_nothing cfg h n hn).2, fun hle hbig => ?_,
+      hr.step (op := .malloc n) rfl⟩
+    · obtain ⟨s, h1, _, h3, h4, h5, _, h7⟩ := malloc_returns_valid_block cfg ok h n p hr hp
+      exact ⟨s, h1, h3, h4, h5, h7⟩
+    · exfalso; apply hc
+      unfold roundLen at hbig
+      split at hbig
+      · rename_i hm
+        have : 0 < n := by
+          rcases Nat.eq_zero_or_pos n with h0 | h0
+          · subst h0; simp at hm
+          · exact h0
+        exact ⟨hm, by omega⟩
+      · omega
+
+/-- the same for realloc: either the unbounded routine, or NULL with the heap
+(and the old block) unchanged -/
+theorem realloc64_all_sizes (cfg : Cfg) (ok : CfgOK cfg) (h : Heap) (p n sz : Nat) (r : Res)
+    (hr : Reach cfg h) (hl : lookup (p - 8) h.live = some sz) (hs : realloc64 cfg h (some p) n = some r) :
+    (∀ q, r.ret = some q → ∃ s, lookup (q - 8) r.h.live = some s ∧ n ≤ s ∧ q % 8 = 0 ∧ q + s ≤ r.h.brk) ∧
+    (r.ret = none → r.h = h ∧ r.evs = []) := by
+  unfold realloc64 at hs
+  split at hs
+  · cases hs
+    exact ⟨fun q hq => (by cases hq), fun _ => ⟨rfl, rfl⟩⟩
+  · refine ⟨fun q hq => ?_, fun hn => realloc_fail_changes_nothing cfg ok h p n sz r hr hl hs hn⟩
+    obtain ⟨s, h1, h2, h3, h4, _⟩ := realloc_returns_valid_block cfg ok h p n sz q r hr hl hs hq
+    exact ⟨s, h1, h2, h3, h4⟩
+
+/-- FULL STATEMENT violated by the routines as they were (`mallocOrig64`,
+`reallocOrig64`): `malloc(SIZE_MAX − 9)` returned a block of 64 usable bytes;
+`realloc(p, SIZE_MAX − 9)` of a 256-byte block "succeeded" by shrinking it to 64
+bytes and freeing the rest.  The repaired routines answer NULL and change nothing. -/
+theorem size_wrap_witness :
+    let cfg : Cfg := ⟨64, 0⟩
+    let big := 2 ^ 64 - 10
+    (mallocOrig64 cfg Heap.init big).ret = some 8 ∧ (mallocOrig64 cfg Heap.init big).h.live = [(0, 8)] ∧
+    (malloc64 cfg Heap.init big).ret = none ∧
+    (let h1 := (malloc cfg Heap.init 256).h
+     (∃ r, reallocOrig64 cfg h1 (some 8) big = some r ∧ r.ret = some 8 ∧ (0, 8) ∈ r.h.live) ∧
+     (∃ r, realloc64 cfg h1 (some 8) big = some r ∧ r.ret = none ∧ r.h = h1)) := by
+  decide
+
+/-! ## The heap at the level of the `nx` pointers (ModelPtr.lean)
+
+`PHeap` = `__brkval`, `__flp` and the two words `sz` / `nx` of every header in
+memory; `mallocP` / `freeP` / `reallocP` are the literal pointer stores of the C
+code, their loops walking `fp1 = fp1->nx` with fuel.  `FRep ph h`: same break,
+following `__flp` / `nx` visits exactly the nodes of the list `h.flp` in order with
+the recorded `sz` words and ends in NULL, and the `sz` word of every live header
+is the recorded size. -/
+
+/-- every pointer store of malloc keeps the linked structure equal to the
+address-ordered list of the model, and the same pointer is returned (for any
+fuel above the length of the list: the loop never runs out) -/
+theorem heap_ptr_malloc_refines (cfg : Cfg) (ok : CfgOK cfg) (ph : PHeap) (h : Heap) (n fuel : Nat)
+    (hr : Reach cfg h) (hp : FRep ph h) (hf : h.flp.length < fuel) :
+    (mallocP cfg ph n fuel).ret = (malloc cfg h n).ret ∧ FRep (mallocP cfg ph n fuel).h (malloc cfg h n).h :=
+  mallocP_refines cfg ph h n fuel (hr.inv ok) hp hf
+
+/-- the same for free of a live block: the ordered walk, both merges and the
+lowering of the break, as pointer stores, produce the list of the model -/
+theorem heap_ptr_free_refines (cfg : Cfg) (ok : CfgOK cfg) (ph : PHeap) (h : Heap) (p sz fuel : Nat) (r : Res)
+    (hr : Reach cfg h) (hp : FRep ph h) (hf : h.flp.length < fuel) (h8 : 8 ≤ p)
+    (hl : lookup (p - 8) h.live = some sz) (hfree : free h p = some r) : FRep (freeP ph p fuel).h r.h :=
+  freeP_refines cfg ph h p sz fuel r (hr.inv ok) hp hf h8 hl hfree
+
+/-- the same for realloc on all its paths (NULL, shrink-split + free of the tail,
+growth into the neighbour with / without split, in-place growth at the top, move) -/
+theorem heap_ptr_realloc_refines (cfg : Cfg) (ok : CfgOK cfg) (ph : PHeap) (h : Heap) (ptr : Option Nat)
+    (n fuel : Nat) (r : Res) (hr : Reach cfg h) (hp : FRep ph h) (hf : h.flp.length < fuel)
+    (hre : realloc cfg h ptr n = some r) :
+    (reallocP cfg ph ptr n fuel).ret = r.ret ∧ FRep (reallocP cfg ph ptr n fuel).h r.h :=
+  reallocP_refines cfg ok ph h ptr n fuel r (hr.inv ok) hp hf hre
+
+/-- whole histories: running the pointer-level routines from the initial heap
+(fuel `brk + 1` per call) always represents the state of the list model -/
+theorem heap_ptr_run_refines (cfg : Cfg) (ok : CfgOK cfg) (ops : List Op) (h : Heap)
+    (hrun : run cfg Heap.init ops = some h) : FRep (runP cfg PHeap.init ops) h :=
+  runP_refines cfg ok ops h hrun
+
+/-- hence the heap theorems carry over to the pointer-level heap: after every
+history the free list READ FROM MEMORY (`__flp`, `nx`, `sz` words) is strictly
+address ordered and fully coalesced, never reaches the break, its chunks and the
+live chunks (sizes read from their `sz` words) tile `[start, brk)` without overlap,
+and with no live block the pointer-level break is 0 and `__flp` is NULL -/
+theorem heap_ptr_inv (cfg : Cfg) (ok : CfgOK cfg) (ops : List Op) (h : Heap)
+    (hrun : run cfg Heap.init ops = some h) :
+    let ph := runP cfg PHeap.init ops
+    let fl := walkFl ph (ph.brk + 1)
+    let lv := h.live.map (fun c => (c.1, ph.szf c.1))
+    fl.Pairwise (fun c d => c.1 + 8 + c.2 < d.1) ∧ (∀ f ∈ fl, f.1 + 8 + f.2 ≠ ph.brk) ∧
+    (fl ++ lv).Pairwise Disj ∧
+    (∀ x, x < ph.brk → ∃ c ∈ fl ++ lv, c.1 ≤ x ∧ x < c.1 + 8 + c.2) ∧
+    (∀ c ∈ fl ++ lv, c.1 + 8 + c.2 ≤ ph.brk) ∧ (cfg.lim ≠ 0 → ph.brk ≤ cfg.lim) ∧
+    (h.live = [] → ph.brk = 0 ∧ ph.flp = none) := by
+  intro ph fl lv
+  have hrep := runP_refines cfg ok ops h hrun
+  have hfl : fl = h.flp := runP_walkFl cfg ok ops h hrun
+  have hlv : lv = h.live := by
+    show h.live.map (fun c => (c.1, ph.szf c.1)) = h.live
+    have : ∀ c ∈ h.live, (fun c : Chunk => (c.1, ph.szf c.1)) c = c := fun c hc => by
+      have h2 : ph.szf c.1 = c.2 := hrep.2.2 c hc
+      show (c.1, ph.szf c.1) = c
+      rw [h2]
+    rw [List.map_congr_left this, List.map_id']
+  have hb : ph.brk = h.brk := hrep.1
+  have hok := heap_inv cfg ok ops h hrun
+  rw [hfl, hlv, hb]
+  refine ⟨hok.ordered, hok.notTop, hok.disjoint, hok.covered, hok.inside, hok.limit, fun hl => ?_⟩
+  have := heap_returns_to_start cfg ok ops h hrun hl
+  refine ⟨this.1, ?_⟩
+  have hc := hrep.2.1
+  rw [this.2] at hc
+  exact hc
+
+example : ∃ h, run ⟨64, 0⟩ Heap.init [.malloc 1, .malloc 64, .malloc 9, .free (some 80)] = some h ∧
+    walkFl (runP ⟨64, 0⟩ PHeap.init [.malloc 1, .malloc 64, .malloc 9, .free (some 80)]) 217 = [(72, 64)] :=
+  ⟨_, rfl, by decide⟩
+
+/-! non-vacuity of the multi-zone hypotheses -/
+
+example : (⟨16, 64, 16⟩ : Zone).WF := ⟨by decide, by decide⟩
+example : ∃ s, mrun MState.init [.engage 16 64 16, .alloc, .alloc, .free 64, .engage 104 48 8, .alloc, .alloc] = some s ∧
+    s.live = [136, 144, 48] ∧ s.pool.avail = 7 ∧ capacity s.zones = 10 := ⟨_, rfl, by decide⟩
+example : ∃ s, mrun MState.init [.engage 16 64 16, .alloc, .alloc, .free 64, .engage 104 48 8, .alloc, .alloc,
+      .free 144, .free 136] = some s ∧ (∀ z ∈ s.zones, 0 < z.base ∨ z.base + z.size ≤ 0) ∧
+    s.pool.free = [136, 144, 128, 120, 112, 104, 64, 32, 16] ∧
+    (mrunP 0 (slistInit (fun _ => 0) 0) [.engage 16 64 16, .alloc, .alloc, .free 64, .engage 104 48 8, .alloc, .alloc,
+      .free 144, .free 136]) 136 = 144 := ⟨_, rfl, by decide, by decide, by decide⟩
+example : ∃ x, mrunE ⟨⟨[32, 16]⟩, [64, 48], [⟨16, 64, 16⟩]⟩ [.engage 104 48 8, .free 64, .alloc] = some x ∧
+    48 ∈ x.1.live ∧ x.2.length = 7 ∧ (∀ z ∈ x.1.zones, 8 ≤ z.elemsz) := ⟨_, rfl, by decide, by decide, by decide⟩
+example : ∃ p, sxrun 16 (SOPx.init 12 4 2) [.create, .create, .engage 64 2, .create, .destroy 16, .create] = some p ∧
+    p.sop.objs = [16, 80, 0] ∧ p.ctor = [16, 80, 0, 16] ∧ p.dtor = [16] := ⟨_, rfl, by decide⟩
 
 end Igris.C10
